@@ -197,8 +197,9 @@ def iso_machine(prog, res, ctm, out, depth=6):
         na = ig.OPS[name][1]
         if name == "xyz":
             continue
-        a = args[len(args) - na:] if na else []
-        del args[len(args) - na:]
+        lo = max(0, len(args) - na)                     # never a negative slice start on under-supplied operators
+        a = args[lo:] if na else []
+        del args[lo:]
         if name == "q":
             stack.append(dict(st))
         elif name == "Q":
